@@ -25,6 +25,10 @@ class Realised(Exception):
 
 class Mode:
     square = 'abstract'      # 'abstract': t*t -> SQ(t) (uninterpreted + lemmas); 'exact': t*t
+    relax_roundtrip = False  # True: sqrt(u)*sqrt(u) -> u + delta, |delta| <= u*2^-51 (models double rounding)
+
+
+ROUND_EPS = smt.rv(Fraction(1, 2 ** 51))
 
 
 CUR = None   # current Explorer
@@ -59,7 +63,14 @@ def lift(x):
 
 def square_term(t):
     if z3.is_app(t) and t.decl().kind() == z3.Z3_OP_UNINTERPRETED and t.decl().name() == 'SQRT':
-        return t.arg(0)
+        u = t.arg(0)
+        if Mode.relax_roundtrip and CUR is not None:
+            CUR.fresh_n += 1
+            d = z3.Real('rnd%d' % CUR.fresh_n)
+            CUR.side_fact(z3.And(d <= u * ROUND_EPS, -d <= u * ROUND_EPS))
+            CUR.roundtrip_used = True
+            return u + d
+        return u
     if z3.is_rational_value(t) or z3.is_int_value(t):
         return z3.simplify(t * t)
     if Mode.square == 'exact':
@@ -402,9 +413,10 @@ class Explorer:
         self._side_ids = set()
         self.solver = z3.Solver()
         self.solver.set('timeout', self.timeout_ms)
-        for a in self.assumptions:
-            self.solver.add(a)
+        smt.fast_add(self.solver, self.assumptions)
         self.known = dict(self._known0)
+        self.fresh_n = 0
+        self.roundtrip_used = False
 
     @staticmethod
     def _note(known, lit):
